@@ -204,6 +204,62 @@ fn check_ws(ctx: &mut Ctx, sw: &ScopedWs, c: &mut Choices) -> Result<(), Failure
     Ok(())
 }
 
+/// One shadowing program: `zx` bound by `outer` with type `oty`, bound again by `inner` with type
+/// `ity`; at the hole the item `zx` must carry the inner binding's type.
+fn shadowed_item(ctx: &mut Ctx, outer: usize, inner: usize, (oty, olit): (&str, &str), (ity, ilit): (&str, &str)) -> Result<(), Failure> {
+    let hole = "zq";
+    let (head, pre) = match outer {
+        0 => (format!("pub fn zf(zx: {}) {{\n", oty), String::new()),
+        1 => ("pub fn zf() {\n".to_string(), format!("  let zx = {}\n", olit)),
+        _ => ("pub fn zf() {\n".to_string(), format!("  let #(zx, _) = #({}, 0)\n", olit)),
+    };
+    let body = match inner {
+        0 => format!("  let zx = {}\n  {}\n", ilit, hole),
+        1 => format!("  case {} {{\n    zx -> {}\n  }}\n", ilit, hole),
+        2 => format!("  fn(zx: {}) {{ {} }}\n", ity, hole),
+        3 => format!("  let #(zx, _) = #({}, 0)\n  {}\n", ilit, hole),
+        _ => format!("  {{\n    let zx: {} = {}\n    {}\n  }}\n", ity, ilit, hole),
+    };
+    let text = format!("{}{}{}}}\n", head, pre, body);
+    let mut ws = scoped::Workspace::default();
+    ws.files.push(scoped::WsFile { path: "/ws/app/src/m.gleam".into(), pkg: 0, text: text.clone(), module: Some("m".into()) });
+    ws.files.push(scoped::WsFile { path: "/ws/app/gleam.toml".into(), pkg: 0, text: "name = \"app\"\n".into(), module: None });
+    ws.packages.push(scoped::Pkg { name: "app".into(), root: "/ws/app".into(), is_local: true, deps: vec![], toml_file: 1 });
+    let case = json!({"shadowing": {"outer": outer, "inner": inner, "outer_type": oty, "inner_type": ity}, "text": text});
+    let host = build_host(&ws);
+    let an = host.snapshot();
+    let at = text.rfind(hole).unwrap() + hole.len();
+    ctx.eval();
+    let items = match panics::catch(|| an.completions(FilePos::new(FileId(0), TextSize::from(at as u32)), None)) {
+        Ok(Ok(Some(i))) => i,
+        Ok(Ok(None)) => vec![],
+        Ok(Err(_)) => return Ok(()),
+        Err(p) => return Err(Failure::new(format!("completions panicked: {}", p.message), case).sig("kind", "panic")),
+    };
+    let zx: Vec<_> = items.iter().filter(|i| i.label == "zx").collect();
+    if zx.len() != 1 {
+        return Err(Failure::new(format!("`zx` is bound twice on the way to the hole and must be offered exactly once; offered {} times", zx.len()), case).sig("kind", "shadowed-offer-count"));
+    }
+    match zx[0].signature.as_deref() {
+        Some(sig) if sig == ity => {}
+        // a server that shows no signature for locals says nothing wrong
+        None => {
+            ctx.excluded("no signature on local completion items");
+            return Ok(());
+        }
+        Some(sig) => {
+            return Err(Failure::new(
+                format!("at the hole `zx` is the inner binding (type {}), the offered item describes a `zx` of type `{}` (the shadowed outer binding has type {})", ity, sig, oty),
+                case,
+            )
+            .sig("kind", "shadowed-binding-offered"));
+        }
+    }
+    ctx.class("shadowed local: offered item describes the innermost binding");
+    ctx.nontrivial(hash_str(&text));
+    Ok(())
+}
+
 impl Property for C18 {
     fn id(&self) -> &'static str {
         "C18"
@@ -221,6 +277,36 @@ impl Property for C18 {
         Some(crate::FuzzSpec { label: "c18-ws", max_len: 700, runs: 10000 })
     }
     fn run(&self, ctx: &mut Ctx) {
+        // Which binding an offered local IS: a name bound twice on the way to the hole, with
+        // different, known types.  The item offered under that name must describe the innermost
+        // binding (its signature is that binding's type).  Exhaustive over outer x inner binder
+        // forms x type pairs.
+        if !ctx.fuzzing() {
+            let types: [(&str, &str); 4] = [("Int", "1"), ("String", "\"s\""), ("Float", "1.5"), ("Bool", "True")];
+            let mut k = 0u64;
+            for outer in 0..3usize {
+                for inner in 0..5usize {
+                    for (ti, (oty, olit)) in types.iter().enumerate() {
+                        for (tj, (ity, ilit)) in types.iter().enumerate() {
+                            if ti == tj {
+                                continue;
+                            }
+                            k += 1;
+                            if !ctx.mine(k) {
+                                continue;
+                            }
+                            if let Err(f) = shadowed_item(ctx, outer, inner, (oty, olit), (ity, ilit)) {
+                                ctx.fail(f);
+                                if ctx.stopped() {
+                                    return;
+                                }
+                            }
+                        }
+                    }
+                }
+            }
+            ctx.space("shadowing: outer binder forms x inner binder forms x ordered type pairs", k);
+        }
         let cases = ctx.tier.pick(12_000, 60_000);
         ctx.run_streams("c18-ws", cases, 700, |ctx, bytes| {
             ctx.mark(&json!({"stream": hex(bytes)}));
@@ -237,6 +323,16 @@ impl Property for C18 {
         });
     }
     fn replay(&self, ctx: &mut Ctx, case: &Value) -> Result<(), Failure> {
+        if let Some(sh) = case.get("shadowing") {
+            let lit = |t: &str| match t {
+                "Int" => "1",
+                "String" => "\"s\"",
+                "Float" => "1.5",
+                _ => "True",
+            };
+            let (o, i) = (sh["outer_type"].as_str().unwrap_or("Int").to_string(), sh["inner_type"].as_str().unwrap_or("String").to_string());
+            return shadowed_item(ctx, sh["outer"].as_u64().unwrap_or(0) as usize, sh["inner"].as_u64().unwrap_or(0) as usize, (&o, lit(&o)), (&i, lit(&i)));
+        }
         if let Some(h) = case.get("stream").and_then(|s| s.as_str()) {
             let bytes = unhex(h);
             let mut c = Choices::new(&bytes);
